@@ -1,0 +1,24 @@
+//go:build verif
+
+package variable
+
+import "sort"
+
+// VerifTypedNames returns the names held in each of the three typed maps of the
+// store, sorted. It is compiled only with the "verif" build tag and lets the
+// verification harness observe whether one name is ever held under two types.
+func (storer *InMemoryStorer) VerifTypedNames() (numbers, booleans, strings []string) {
+	for name := range storer.numbers {
+		numbers = append(numbers, name)
+	}
+	for name := range storer.booleans {
+		booleans = append(booleans, name)
+	}
+	for name := range storer.strings {
+		strings = append(strings, name)
+	}
+	sort.Strings(numbers)
+	sort.Strings(booleans)
+	sort.Strings(strings)
+	return numbers, booleans, strings
+}
